@@ -1,5 +1,5 @@
 # replay of a bounded stand-in violation (C11): re-run native/c11_compilers.py
 import sys
-print("gaussian_merge n=2 gates=[('S2gate', (0, 1)), ('Sgate', (1,)), ('Vgate', (0,)), ('MZgate', (0, 1)), ('BSgate', (1, 0)), ('Dgate', (0,)), ('Kgate', (0,)), ('Rgate', (1,)), ('MZgate', (1, 0)), ('MZgate', (1, 0)), ('Vgate', (0,))]: with the opaque gates interpreted as fixed unitaries the compiled program [('GaussianTransform', [0, 1]), ('Vgate', [0]), ('GaussianTransform', [0, 1]), ('Dgate', [0]), ('Kgate', [0]), ('GaussianTransform', [0, 1]), ('Vgate', [0]), ('MeasureFock', [0, 1])] computes something else (max difference 0.267)")
+print("passive n=6 modes=[5, 2, 4, 0, 1, 3] gates=[('Rgate', (4,)), ('MZgate', (2, 4)), ('MZgate', (4, 1)), ('Rgate', (3,)), ('Rgate', (4,)), ('Rgate', (5,)), ('Rgate', (5,)), ('Interferometer', (0, 5)), ('BSgate', (2, 3)), ('Rgate', (1,)), ('PassiveChannel', (1, 2)), ('BSgate', (4, 3)), ('MZgate', (4, 2)), ('Rgate', (4,)), ('BSgate', (1, 0)), ('BSgate', (1, 5))]: compiled program leaves a different Gaussian state (max difference 0.38)")
 print('REPLAY-VIOLATION')
 sys.exit(1)
